@@ -317,6 +317,12 @@ unit("alloc.acct", ["C07", "C15", "C06"], "units/u_alloc.c", entry="h_alloc_acct
      flags=["--malloc-may-fail", "--malloc-fail-null"], expect_tags=["C07.alloc.accounting-exact", "C07.alloc.cap-respected"], timeout=300,
      assumes=["request sizes <= 2^32 bytes, nmemb <= 2^16 (derived from the call sites)"])
 
+unit("loop.batch", ["C14", "C09", "C06"], "units/u_loop.c", entry="h_loop_batch", functions=["handle_events", "eventloop_epoll_remove"], unwind=5, solver="cadical",
+     kind="proof", bound="batches of <= 3 events over 3 registered io_events (CONFIG_MAX_EPOLL_EVENTS is 10)",
+     expect_tags=["C14.batch.dispatched-event-is-still-registered", "C09.batch.every-readable-event-of-the-batch-is-read-once"], timeout=300,
+     replay={"c": "replay/loop_replay.c", "extract": "loop_extract"},
+     assumes=["callbacks: any callback may deregister any subset of the registered events, returns EL_EVENT_REMOVED iff it removed its own"])
+
 PROPERTY_META["C14"] = {
     "level": "proof",
     "level_text": ("get_timeout_in_nsec is proved over every JSON type and every double (incl. +-inf): absent -> default; non-number or < 0.001 s -> refused with an invalid-params error and 0; "
